@@ -8,8 +8,8 @@ M = 'mirsym'
 CHECKS = {
  'C03': dict(engine=M, cat='model_checking', design='7 (C03), 4',
    tech='symbolic execution of the crate MIR (path-based, z3) over all byte strings up to a bound and grammar skeletons with symbolic holes; every path replayed natively',
-   text='Bounded symbolic model checking of the real Zinc reader (Parser::make + parse_value as compiled to MIR): for every byte string of length <= 3 (quick) / 4 (thorough) and for 37 grammar skeletons with 2-3 fully symbolic bytes at the interesting position, plus non-EOF reader faults at every offset of three documents, z3 decides every branch; no explored path may panic, exceed the step bound (non-termination) or the call-depth bound. One solver model per path is replayed against the natively built crate and must give the same value / error / panic.',
-   note='Bounds: inputs <= 4 fully symbolic bytes, skeleton holes <= 3 bytes, 40000 MIR steps and call depth 60 per path. Trusted: rustc nightly MIR printer, the mirsym interpreter and its std/chrono models (validated per path against the native build), z3. Outside: longer inputs, unbounded nesting depth (stack exhaustion at depth ~10^4 is not decided), Hayson totality (serde_json text layer), IANA zone rules (offset of named zones is an arbitrary value).'),
+   text='Bounded symbolic model checking of the real Zinc reader (Parser::make + parse_value as compiled to MIR) and, at JSON-tree level, of the Hayson visitor (objects of every _kind with each expected member absent / empty string / symbolic string / number / null / bool / list / object, both member orders): for every byte string of length <= 3 (quick) / 4 (thorough) and for 37 grammar skeletons with 2-3 fully symbolic bytes at the interesting position, plus non-EOF reader faults at every offset of three documents, z3 decides every branch; no explored path may panic, exceed the step bound (non-termination) or the call-depth bound. One solver model per path is replayed against the natively built crate and must give the same value / error / panic.',
+   note='Bounds: inputs <= 4 fully symbolic bytes, skeleton holes <= 3 bytes, 40000 MIR steps and call depth 60 per path. Trusted: rustc nightly MIR printer, the mirsym interpreter and its std/chrono models (validated per path against the native build), z3. Outside: longer inputs, unbounded nesting depth (stack exhaustion at depth ~10^4 is not decided), Hayson below the tree level (serde_json text layer and its recursion limit), IANA zone rules (offset of named zones is an arbitrary value).'),
  'C09': dict(engine=M, cat='model_checking', design='7 (C09), 4',
    tech='symbolic execution of the crate MIR (path-based, z3) of Filter::try_from over all ASCII strings up to a bound and filter skeletons with symbolic holes; every path replayed natively (outcome and parse tree)',
    text='Bounded symbolic model checking of the real filter lexer/parser: every ASCII string of length <= 3 (quick) / 4 (thorough) and 29 filter skeletons (operators without operands, unbalanced/nested parentheses, paths, relations, every literal opener) with 2-3 symbolic bytes; no explored path may panic, exceed the step bound or the call-depth bound; one model per path is replayed natively and must give the same outcome and the same tree.',
@@ -50,6 +50,14 @@ CHECKS = {
    tech='differential symbolic execution: the crate\'s Eval impls, Dict path resolver and Dict/Grid Filtered impls (MIR) against reference filter semantics written from the specification, on filter trees and records with symbolic payloads; every z3-feasible disagreement is replayed natively',
    text='Filter trees of 23 shapes (all six comparison operators on 1- and 2-segment paths with literals of five kinds, has/missing, and/or/parentheses combinations) are evaluated from MIR on records whose tags are each absent, Null, Marker, Bool, Number (any non-NaN f64, three unit choices), Str, Ref, a list or a nested dict; on 2-row grids (filter_all and single match); and WildcardEq through a caller-supplied resolver over every 3-record ref graph including cycles. The reference semantics (/verif/spec/filter_eval.py) computes the truth value the filter language defines on the same symbolic data; a feasible path where the two differ is a violation.',
    note='Bounds: <= 3 terms, paths <= 2 segments, 2 tags, 2 grid rows, 3-node ref graphs; quick tier uses a reduced tag universe for the multi-term shapes. Ordering of Numbers with different units is left open (no query). ^symbol and relationship terms are not covered (need a namespace: C13).'),
+ 'C02': dict(engine=M, cat='model_checking', design='7 (C02), 4.3 (serde model)',
+   tech='symbolic execution of the crate MIR at the serde data-model level: Serialize impls into a model Serializer that builds a JSON tree with symbolic leaves, then the crate\'s Visitor driven by a model Deserializer over that tree (serde_json\'s number dispatch); z3 decides whether decoded != original; witnesses replayed natively through serde_json text',
+   text='For the C01 catalogue of well-formed values plus numbers over every f64 class (non-integral, 32-bit integral, beyond 2^53, +-2^63, 1e19, special values, with units) the Serialize impls and the JsonValueDecoderVisitor are executed from MIR with a JSON tree in between; the solver is asked for leaves for which decoding fails or gives another value (numeric equality, zone id and instant for timestamps). Every witness is re-run natively with serde_json::to_string / from_str.',
+   note='serde_json\'s text layer is trusted (model = serde data model; non-finite f64 -> null as documented). Bounds as C01. IANA rules outside the model (instant + zone id compared).'),
+ 'C05': dict(engine=M, cat='model_checking', design='7 (C05), 4.5',
+   tech='differential symbolic execution at JSON-tree level against a reference Hayson tree builder written from the specification (/verif/spec/hayson.py): writer trees compared as formulas, reader fed the reference tree in every member order and number spelling (forks)',
+   text='Writer: for every catalogue value the tree produced by the real Serialize impls must equal the reference tree (object members as sets, numbers as reals). Reader: the reference tree is spelled with every permutation of the members of each object (<= 4 members), integral numbers as integer or float (incl. integers up to 2^64), and must decode to the value. Witnesses are replayed natively (serde_json::to_value / from_str of the rendered tree).',
+   note='Symbolic integral numbers are excluded from the writer comparison (int<->float cast reasoning does not finish in z3; covered by C02). JSON text level trusted. The reference trees are part of the trusted base.'),
 }
 NA = {
  'C14': 'quantifies over thread interleavings on dashmap\'s sharded locks: Kani has no thread model, mirsym is sequential and dashmap is outside the MIR dump; no solver-based engine on this image reaches it (DESIGN.md section 8)',
